@@ -117,6 +117,32 @@ def judge(rec, props: tuple, case: dict, *, want=None, extra=None, key=None, sli
                     rec.violation("copy-differs", f"{how} of the returned chart shows other data than the chart itself: "
                                   + (same if isinstance(same, str) else mine_[0][2]), dict(rcase, copied=how), "copy-shows-other-data")
                     return out, None, None
+    if len(case["text"]) % 19 == 7 and len(case["text"]) < 40000:
+        # the parts of a chart outlive the chart: an application keeps a track / the tempo map / the metadata and lets the Chart object
+        # go (a helper returning Chart.from_file(f)[instrument][difficulty]); after the chart is gone and the collector has run, the parts
+        # still show what they showed
+        import gc
+        import types
+
+        o2 = harness.parse(case["text"], harness.pairs(want) if want is not None else None)
+        if o2.ok:
+            c2 = o2.chart
+            parts = types.SimpleNamespace(metadata=c2.metadata, sync_track=c2.sync_track, global_events_track=c2.global_events_track,
+                                          instrument_tracks=c2.instrument_tracks)
+            o2.chart = None
+            del c2, o2
+            gc.collect()
+            rec.ev()
+            try:
+                same = harness.obs(parts) == ob
+            except Exception as e:  # noqa
+                same = f"reading them raised {harness.exc_str(e)}"
+            if same is not True:
+                rec.violation("unreadable", "the parts of a chart (metadata, sync track, global events, instrument tracks) read after the Chart object itself was "
+                              "dropped and collected " + ("show other data than the same parts of a live chart" if same is False else same),
+                              dict(rcase, chart_dropped=True), "parts-of-a-dropped-chart-differ")
+                return out, None, None
+            rec.cls("parts_of_a_chart_read_after_the_chart_was_dropped")
     d = model.compare(case["truth"], ob)
     n = sum(d.evals.get(p, 0) for p in props)
     rec.ev(n)
